@@ -254,10 +254,8 @@ def gen_reentrant2(rng):
                     cands.append(["disconnect", u, d])
         for d in free:
             for u in free:
-                if u < d and kinds[u] not in ("sink", "rsink") and u not in ups[d] and kinds[d] != "pipe" or \
-                        (u < d and kinds[u] not in ("sink", "rsink") and u not in ups[d] and paths((u, d)) <= 16):
-                    if paths((u, d)) <= 16:
-                        cands.append(["connect", u, d])
+                if u < d and kinds[u] not in ("sink", "rsink") and u not in ups[d] and paths((u, d)) <= 16:
+                    cands.append(["connect", u, d])
         for m in free:
             if all(u in free for u in ups[m]):
                 cands.append(["destroy", m])
@@ -416,7 +414,21 @@ def oracle(case, obs):
                 out.append(("C15", "C15/delivery-off-edge", "step %d: %d delivered to %d, not a current edge" % (step, s, d)))
         if op[0] == "remit":
             if o["raised"]:
-                out.append(("C15", "C15/reentrant-edit/emit-raises", "step %d (%s): the emit raised %s: an edit made from inside a consumer callback broke the delivery in progress" % (step, op, o["raised"])))
+                # a combining node detached by the edit and still served from the snapshot of a loop that was already
+                # running: its update raises (zip: self.buffers[who] KeyError; combine_latest: upstreams.index(who)
+                # ValueError) and unwinds the whole emission
+                ed = op[4]
+                tgt = ed[2] if ed[0] == "disconnect" else (ed[1] if ed[0] == "destroy" else None)
+                last = o["deliv"][-1] if o["deliv"] else None
+                if (o.get("edit_done") and tgt is not None and last is not None and last[1] == tgt and tgt < len(kinds)
+                        and kinds[tgt] in ("zip", "combine", "combine_on", "combine_on0")
+                        and o["raised"] == ("KeyError" if kinds[tgt] == "zip" else "ValueError")
+                        and tgt < len(prev) and last[0] in prev[tgt][1] and last[0] not in links[tgt][1]):
+                    out.append(("C15", "C15/reentrant-edit/detached-input-still-served/%s" % ("zip" if kinds[tgt] == "zip" else "combine"),
+                                "step %d (%s): node %d was detached from its input %d by the edit made inside the callback, was still handed the element by the running loop of %d (snapshot of the downstream set) and raised %s; the emission was aborted, later siblings never got the element"
+                                % (step, op, tgt, last[0], last[0], o["raised"])))
+                else:
+                    out.append(("C15", "C15/reentrant-edit/emit-raises", "step %d (%s): the emit raised %s: an edit made from inside a consumer callback broke the delivery in progress" % (step, op, o["raised"])))
                 return out
             if o.get("edit_raised"):
                 out.append(("C15", "C15/reentrant-edit/edit-raises", "step %d (%s): the edit made inside the callback raised %s" % (step, op, o["edit_raised"])))
@@ -477,28 +489,40 @@ def oracle(case, obs):
     #     no complete tuple may stay unpaired after any operation
     fifo = {}      # zip node -> {upstream: [values waiting]}
     nnodes = 0
+
+    def edit_fifo(ed):
+        if ed[0] == "connect" and ed[2] in fifo:
+            fifo[ed[2]][ed[1]] = []
+        if ed[0] == "disconnect" and ed[2] in fifo:
+            fifo[ed[2]].pop(ed[1], None)
+        if ed[0] == "destroy" and ed[1] in fifo:
+            fifo[ed[1]] = {}
     for step, (op, o) in enumerate(zip(case["ops"], obs)):
         if op[0] == "new":
             if op[1] == "zip":
                 fifo[nnodes] = {u: [] for u in op[2]}
             nnodes += 1
         if o["raised"]:
+            if op[0] == "remit":
+                return out          # (aborted emission: reported above or a known finding; the bookkeeping below is void)
             continue
-        if op[0] == "connect" and op[2] in fifo:
-            fifo[op[2]][op[1]] = []
-        if op[0] == "disconnect" and op[2] in fifo:
-            fifo[op[2]].pop(op[1], None)
-        if op[0] == "destroy" and op[1] in fifo:
-            fifo[op[1]] = {}
-        for (s_, d, x) in o["deliv"]:
+        if op[0] in ("connect", "disconnect", "destroy"):
+            edit_fifo(op)
+        # an edit made inside the emission takes effect when the reactive sink is first handed an element
+        cut = None
+        if op[0] == "remit" and o.get("edit_done") and not o.get("edit_raised"):
+            cut = next((k for k, (s_, d, x) in enumerate(o["deliv"]) if d == op[3]), None)
+        for k, (s_, d, x) in enumerate(o["deliv"]):
             if d in fifo and s_ in fifo[d]:
                 fifo[d][s_].append(x)
-            if s_ in fifo:
-                # the zip emitted one tuple downstream: one element of every current input was consumed
-                pass
+            if cut is not None and k == cut:
+                edit_fifo(op[4])
+        prev_links = obs[step - 1]["links"] if step > 0 else []
         # tuples emitted by each zip in this step (count each emission once, not once per downstream)
         for zn, f in fifo.items():
             downs_now = o["links"][zn][2] if zn < len(o["links"]) else []
+            if op[0] == "remit" and not (zn < len(prev_links) and prev_links[zn][2]):
+                downs_now = []        # nobody listened when the step began: what the zip paired then cannot be observed
             emitted = [x for (s_, d, x) in o["deliv"] if s_ == zn]
             ntuples = len(emitted) // max(1, len(set(d for (s_, d, x) in o["deliv"] if s_ == zn))) if emitted else 0
             for _ in range(ntuples):
@@ -551,7 +575,7 @@ def run(prop, tier, seed, replay=None):
             break
     # (combine_latest with an explicit emit_on is not in the Coq topology model: oracle only)
     cos_all = cos
-    cos = [(c, o) for (c, o) in cos_all if not any((op[0] == "new" and op[1] in ("combine_on", "combine_on0", "rsink")) or op[0] == "remit" for op in c["ops"])]
+    cos = [(c, o) for (c, o) in cos_all if not any(op[0] == "new" and op[1] in ("combine_on", "combine_on0") for op in c["ops"])]
     mism, errors = correspondence("C15", cos)
     for p, o in errors:
         out.violation("C15/correspondence-error", "coqc failed: %s" % o[-300:], {"file": p}, no_input=True)
